@@ -307,6 +307,37 @@ def run_C15(run):
     run.gen_and_replay("MC_Expr", consts(base, Family="C15ops"), name="typed-operators-axes-vars", kind="noerr")
 
 
+ALL_OPS = {"or", "and", "=", "!=", "<", "<=", ">", ">=", "+", "-", "*", "div", "mod", "|", "/", "//"}
+VALUE_OPS = ALL_OPS - {"|", "/", "//"}
+
+
+def run_C10(run):
+    q = run.tier == "quick"
+    sy = dict(MaxOps=2, OperandIds={"a", "1", "div", "*", "paren", "lit"}, OpIds=ALL_OPS, WithMinus=False, EvalMode=False)
+    inv = ("Emit", "ParserSanity")
+    # (1) every ordered pair of operators (chains of 2), operands incl. keyword-named names and '*'
+    run.gen_and_parse("MC_Syntax", consts(sy, OperandIds={"a", "1", "div", "*", "paren", "lit"} if q else
+                                          {"a", "1", "div", "mod", "and", "or", "*", "paren", "lit", "fn", "@a", ".."}), "chains-2ops", inv)
+    # (2) unary minus in every operand position
+    run.gen_and_parse("MC_Syntax", consts(sy, OperandIds={"a", "1"} if q else {"a", "1", "*", "div", "paren"}, WithMinus=True),
+                      "chains-2ops-minus", inv)
+    # (3) chains of 3 (thorough: 4) operators
+    run.gen_and_parse("MC_Syntax", consts(sy, MaxOps=3, OperandIds={"a"} if q else {"a", "div", "1"}), "chains-3ops", inv)
+    if not q:
+        run.gen_and_parse("MC_Syntax", consts(sy, MaxOps=4, OperandIds={"a"}), "chains-4ops", inv)
+        run.gen_and_parse("MC_Syntax", consts(sy, MaxOps=5, OperandIds={"a"}, OpIds={"or", "and", "=", "<", "+", "*", "|", "/"}),
+                          "chains-5ops", inv)
+    # (4) abbreviations and steps as operands
+    run.gen_and_parse("MC_Syntax", consts(sy, MaxOps=2, OperandIds={"a", "@a", "..", ".", "ax", "pred", "fn1"},
+                                          OpIds={"/", "//", "|", "=", "and", "+", "*"}), "abbreviations", inv)
+    # (5) hook-independent: the VALUE of unparenthesised chains over constants must be the value of the reference grouping
+    run.gen_and_parse("MC_Syntax", consts(sy, MaxOps=2 if q else 3, OperandIds={"1", "2", "3", "0", ".5", "true", "empty"} if q else
+                                          {"1", "2", "3", "0", "true"}, OpIds=VALUE_OPS, EvalMode=True, WithMinus=False),
+                      "value-chains", inv)
+    run.gen_and_parse("MC_Syntax", consts(sy, MaxOps=3, OperandIds={"2", "3"}, OpIds=VALUE_OPS, EvalMode=True, WithMinus=not q),
+                      "value-chains-3ops", inv)
+
+
 def run_C12(run):
     q = run.tier == "quick"
     # flat paths: exact document order; every node-set expression: protocol
@@ -368,6 +399,7 @@ PROPS = {
     "C03": {"run": run_C03},
     "C04": {"run": run_C04},
     "C05": {"run": run_C05},
+    "C10": {"run": run_C10},
     "C12": {"run": run_C12},
     "C14": {"run": run_C14},
     "C15": {"run": run_C15},
